@@ -7,7 +7,7 @@
 //! the reference as well. Reference-made Ed25519 signatures must verify through rPGP.
 
 use pgp::crypto::hash::HashAlgorithm;
-use pgp::packet::{Notation, Signature, SignatureConfig, SignatureType, Subpacket, SubpacketData, UserAttribute, UserId};
+use pgp::packet::{Notation, Packet, PacketParser, Signature, SignatureConfig, SignatureType, Subpacket, SubpacketData, UserAttribute, UserId};
 use pgp::ser::Serialize;
 use pgp::types::{KeyDetails, KeyVersion, Password, SigningKey, Tag, Timestamp};
 use rand::SeedableRng;
@@ -138,7 +138,25 @@ fn matrix_case(t: &mut Tape, rec: &mut Rec, signers: &[Kind]) -> CaseResult {
         _ => "Alice <alice@example.org>".to_string(),
     };
     let uid = UserId::from_str(Default::default(), &uid_text).map_err(|e| f("C11:uid-error", e.to_string()))?;
-    let attr = UserAttribute::new_image(expand(t.u64(), t.range(1, 300)).into()).map_err(|e| f("C11:attr-error", e.to_string()))?;
+    // user attribute: made by the API, or parsed from a wire form whose subpacket length uses the
+    // legal five-octet encoding although a shorter one would do (the framing hashes the bytes as they are)
+    let image = expand(t.u64(), t.range(1, 300));
+    let (attr, attr_wire): (UserAttribute, Option<Vec<u8>>) = if t.chance(110) {
+        let mut sp = vec![1u8, 0x10, 0x00, 0x01, 0x01];
+        sp.extend_from_slice(&[0u8; 12]);
+        sp.extend_from_slice(&image);
+        let mut body = crate::refimpl::gen::subpacket_len(sp.len(), 5);
+        body.extend_from_slice(&sp);
+        match PacketParser::new(&wire::new_packet(17, &body)[..]).next() {
+            Some(Ok(Packet::UserAttribute(a))) => {
+                rec.label("attribute:parsed-with-five-octet-length");
+                (a, Some(body))
+            }
+            _ => (UserAttribute::new_image(image.clone().into()).map_err(|e| f("C11:attr-error", e.to_string()))?, None),
+        }
+    } else {
+        (UserAttribute::new_image(image.clone().into()).map_err(|e| f("C11:attr-error", e.to_string()))?, None)
+    };
     let data = {
         let n = t.range(0, 600);
         let mut d = expand(t.u64(), n);
@@ -162,7 +180,7 @@ fn matrix_case(t: &mut Tape, rec: &mut Rec, signers: &[Kind]) -> CaseResult {
             (cfg.clone().sign_certification_third_party(&signer, &pw, &other.public.primary_key, Tag::UserId, &uid), c, format!("key {other_kind:?} + user id {} bytes", uid_text.len()))
         }
         What::CertAttr(_) => {
-            let ab = attr.to_bytes().unwrap();
+            let ab = attr_wire.clone().unwrap_or_else(|| attr.to_bytes().unwrap());
             let mut c = key_framing(signee_ver, &signee_body);
             c.extend_from_slice(&uid_framing(true, &ab));
             (cfg.clone().sign_certification_third_party(&signer, &pw, &other.public.primary_key, Tag::UserAttribute, &attr), c, format!("key {other_kind:?} + attribute {} bytes", ab.len()))
